@@ -122,7 +122,10 @@ def gen_box(rng, am):
     return box, fam
 
 
-def gen_system(rng, am, fam_box=None):
+def gen_system(rng, am, fam_box=None, extra=(), far=False):
+    """random cell + 1-4 atoms on the 1/8 grid (faces included); `extra`: further atoms given by exact relative
+    coordinates (Fractions), appended when they are at least 1e-3 (relative) away from every other atom; `far`: a
+    coordinate 0 is stored as 1.0 (the atom listed on the far face / edge / corner) with probability 1/2."""
     np = _np()
     box, fam = fam_box or gen_box(rng, am)
     n = rng.randint(1, 4)
@@ -132,6 +135,12 @@ def gen_system(rng, am, fam_box=None):
         if s not in seen:
             seen.add(s)
             spos.append(s)
+    for e in extra:
+        if all(max(circ(e[j], t[j]) for j in range(3)) >= 1e-3 for t in spos):
+            spos.append(tuple(e))
+    if far:
+        spos = [tuple((1.0 if (x == 0 and rng.random() < 0.5) else x) for x in sp) for sp in spos]
+    n = len(spos)
     atype = [rng.randint(1, 3) for _ in range(n)]
     # make types contiguous from 1 so natypes is sane
     m = {t: i + 1 for i, t in enumerate(sorted(set(atype)))}
@@ -142,10 +151,26 @@ def gen_system(rng, am, fam_box=None):
     # atom: a replica that carries another atom's (or a transposed / re-tiled) value cannot go unnoticed
     stress = [[[cm.dyadic(rng, -4, 4, 3) for _ in range(3)] for _ in range(3)] for _ in range(n)]
     tag = rng.sample(range(1, 50), n)
-    atoms = am.Atoms(atype=atype, pos=np.array(spos, dtype=float), q=np.array(q), v=np.array(v),
-                     stress=np.array(stress), tag=np.array(tag, dtype=int))
+    atoms = am.Atoms(atype=atype, pos=np.array([[float(x) for x in sp] for sp in spos], dtype=float), q=np.array(q),
+                     v=np.array(v), stress=np.array(stress), tag=np.array(tag, dtype=int))
     sysm = am.System(atoms=atoms, box=box, scale=True)
     return sysm, fam, spos
+
+
+# distances (relative to the NEW cell) at which atoms are put next to its faces: inside and just beyond the range
+# 1e-7 .. 1e-4 of the tolerance ladder of rotate
+DELTAS = [Fraction(1, 10 ** 7), Fraction(3, 10 ** 6), Fraction(3, 10 ** 5), Fraction(9, 10 ** 5), Fraction(2, 10 ** 4)]
+
+
+def near_face_spos(rng, U):
+    """exact relative coordinates, in the ORIGINAL cell, of an atom that sits a hair off (not on) a face, an edge or a
+    corner of the NEW cell U.vects - on either side of it."""
+    sp = [Fraction(rng.randint(1, 7), 8) for _ in range(3)]
+    for c in rng.sample(range(3), rng.choice([1, 1, 1, 2, 3])):
+        dl = rng.choice(DELTAS)
+        sp[c] = dl if rng.random() < 0.5 else 1 - dl
+    s = [sum(sp[i] * U[i][j] for i in range(3)) for j in range(3)]
+    return tuple(frac_mod1(x) for x in s)
 
 
 NEXTRA = 14
@@ -253,18 +278,52 @@ FIXED_U = [[[1, 0, 0], [0, 1, 0], [0, 0, 1]], [[0, 1, 0], [0, 0, 1], [1, 0, 0]],
 
 
 def gen_case_U(rng, am, it, maxdet):
-    """(system, family, spos, U, det): the first len(FIXED_U) cases of a batch use the fixed matrices."""
+    """(system, family, spos, U, det): the first len(FIXED_U) cases of a batch use the fixed matrices; every third
+    case has an atom (two sometimes) a hair off a face / edge / corner of the new cell."""
     if it < len(FIXED_U):
+        U = [list(r) for r in FIXED_U[it]]
+        extra = [near_face_spos(rng, U)] if it % 2 == 0 else []
         while True:
-            sysm, fam, spos = gen_system(rng, am)
+            sysm, fam, spos = gen_system(rng, am, extra=extra)
             o = sysm.box.origin @ _np().linalg.inv(sysm.box.vects)
             if _np().abs(o - _np().round(o)).max() > 1e-3:
                 break
-        U = [list(r) for r in FIXED_U[it]]
         return sysm, fam, spos, U, _det3(U)
-    sysm, fam, spos = gen_system(rng, am)
     U, d = gen_U(rng, maxdet=maxdet)
+    extra = [near_face_spos(rng, U) for _ in range(rng.choice([1, 1, 2]))] if it % 3 == 0 else []
+    sysm, fam, spos = gen_system(rng, am, extra=extra, far=(it % 4 == 1))
     return sysm, fam, spos, U, d
+
+
+def acc_tol(n):
+    """np.allclose(uvws, rint(uvws)): |u - n| <= atol + rtol |n| with the numpy defaults."""
+    return 1e-8 + 1e-5 * abs(n)
+
+
+def gen_uvws_form(rng, U):
+    """how the integer vectors U are handed to rotate: (argument, name, accepted). Accepted forms are the integers
+    themselves (list / int arrays / float array) and floats within the acceptance tolerance of them on either side (one
+    ulp, 1e-6..0.45 of the tolerance); refused forms have one entry 3 tolerances or more off."""
+    np = _np()
+    r = rng.random()
+    Uf = np.array(U, dtype=float)
+    if r < 0.25:
+        return [list(x) for x in U], 'int-list', True
+    if r < 0.33:
+        return np.array(U, dtype=rng.choice(['int16', 'int32', 'int64'])), 'int-array', True
+    if r < 0.41:
+        return Uf, 'float', True
+    if r < 0.58:
+        dirs = np.array([[rng.choice([-np.inf, np.inf]) for _ in range(3)] for _ in range(3)])
+        return np.nextafter(Uf, dirs), 'float-ulp', True
+    if r < 0.80:
+        off = np.array([[rng.choice([-1, 1]) * rng.choice([0.0, 1e-6, 1e-3, 0.45]) * acc_tol(U[i][j]) for j in range(3)]
+                        for i in range(3)])
+        return Uf + off, 'float-within-tolerance', True
+    A = Uf.copy()
+    i, j = rng.randrange(3), rng.randrange(3)
+    A[i, j] += rng.choice([-1, 1]) * rng.choice([3 * acc_tol(U[i][j]), 50 * acc_tol(U[i][j]), 0.25, 0.5])
+    return A, 'float-outside-tolerance', False
 
 
 def frac_mod1(x: Fraction) -> Fraction:
@@ -320,10 +379,39 @@ def correspond(ctx):
             impl = 'err:value'
         if impl != out:
             ctx.disagree('supersize:int-rule', f'int multiplier {n}: implementation {impl}, model {out}', {'n': n})
-    # --- rotate: multiset of (type, extras, rel pos mod 1) in the new cell ---
-    for it in range(ctx.n(60, 800)):
+    # --- rotate: multiset of (type, extras, rel pos mod 1) in the new cell; the vectors are handed over in every
+    #     accepted / refused form (ints, float arrays, floats within / outside the integer tolerance) ---
+    for it in range(ctx.n(120, 1200)):
         sysm, fam, _, U, d = gen_case_U(rng, am, it, ctx.n(5, 8))
-        _corr_rotate(ctx, am, sysm, fam, U, d, 'rotate')
+        arg, form, _ = gen_uvws_form(rng, U) if it >= len(FIXED_U) else (U, 'int-list', True)
+        _corr_rotate(ctx, am, sysm, fam, U, d, 'rotate', arg, form)
+    # --- hexagonal cells, 4-index vectors: the library's own 3->4 conversion (float thirds), integer 4-index sets,
+    #     and sets violating u+v+t = 0 (refused) ---
+    for it in range(ctx.n(24, 200)):
+        sysm, fam, _, U, d, arg, form = gen_hex_case(rng, am)
+        _corr_rotate(ctx, am, sysm, fam, U, d, 'rotate-hex4', arg, form)
+    # --- the integer test alone, around the edge of the tolerance (exactly representable offsets) ---
+    for it in range(ctx.n(60, 400)):
+        n = rng.randint(-6, 6)
+        f = rng.choice([0.0, 2.0 ** -40, 0.25, 0.5, 0.9, 1.1, 2.0, 64.0]) * rng.choice([-1, 1])
+        x = n + f * acc_tol(n)
+        out = ctx.driver.ask('accept ' + cm.fr(x))
+        ctx.stats.case('accept', (n, f))
+        try:
+            sysm1 = _unit_system(am)
+            A = np.eye(3)
+            A[0, 0] = x if n != 0 else 1.0
+            A[0, 1] = x if n == 0 else 0.0
+            sysm1.rotate(A)
+            impl = 'ok'
+        except ValueError as e:
+            impl = 'err:value' if 'integer' in str(e) else 'ok'      # (a zero first index makes the set planar)
+        model = 'ok' if not out.startswith('err:') else out
+        if not out.startswith('err:') and int(out) != n:
+            ctx.disagree('accept:value', f'index {x!r}: the model accepts it as {out}, the nearest integer is {n}', {'x': x})
+        if impl != model:
+            ctx.disagree('accept', f'index {x!r} (integer {n}, {f} tolerances off): implementation {impl}, model {model}',
+                         {'op': 'accept', 'x': x})
     # --- rotate with an atom outside the box: the bounding supercell may miss images, then the code's own
     #     expected-count test refuses ("Filtering failed"); the model (rotateChecked) must refuse exactly then ---
     for it in range(ctx.n(30, 400)):
@@ -332,20 +420,76 @@ def correspond(ctx):
         sp[rng.randrange(sysm.natoms)] += np.array([rng.randint(-3, 3) for _ in range(3)], dtype=float)
         sysm.atoms_prop('pos', value=sp, scale=True)
         U, d = gen_U(rng, maxdet=5)
-        _corr_rotate(ctx, am, sysm, fam, U, d, 'rotate-outside')
+        _corr_rotate(ctx, am, sysm, fam, U, d, 'rotate-outside', U, 'int-list')
+    # --- the lattice-site test of conventional_to_primitive (periodic lookup) ---
+    _corr_basis(ctx, rng, am)
 
 
-def _corr_rotate(ctx, am, sysm, fam, U, d, kind):
+def _unit_system(am):
+    return am.System(atoms=am.Atoms(atype=[1], pos=[[0.0, 0.0, 0.0]]), box=am.Box(a=2.0, b=2.5, c=3.0))
+
+
+def gen_hex_case(rng, am):
+    """hexagonal cell + vectors given with four indices -> (system, family, spos, U3, det, argument, form)."""
+    np = _np()
+    from atomman.tools import miller
+    while True:
+        a = rng.choice([2.5, 3.0, 3.25])
+        org = [cm.dyadic(rng, -3, 3, 2) for _ in range(3)] if rng.random() < 0.5 else [0.0, 0.0, 0.0]
+        box = am.Box(a=a, b=a, c=rng.choice([4.0, 5.0, 5.25]), gamma=120, origin=org)
+        r = rng.random()
+        if r < 0.45:
+            # any integer 3-index set, converted by the library itself: thirds in floating point, which
+            # vector4to3 turns back into floats that are integers only up to rounding
+            U, d = gen_U(rng, maxdet=5)
+            arg, form = miller.vector3to4(np.array(U, dtype=float)), 'hex4-from-vector3to4'
+        elif r < 0.85:
+            # integer 4-index rows [u v t w] with u + v + t = 0: 3-index [2u+v, 2v+u, w]
+            rows = []
+            for _ in range(3):
+                u, v = rng.randint(-2, 2), rng.randint(-2, 2)
+                rows.append([u, v, -u - v, rng.randint(-2, 2)])
+            U = [[2 * x[0] + x[1], 2 * x[1] + x[0], x[3]] for x in rows]
+            d = _det3(U)
+            arg, form = np.array(rows, dtype=rng.choice(['int64', 'float'])), 'hex4-int'
+            if d == 0 or abs(d) > 9:
+                continue
+        else:
+            U, d = gen_U(rng, maxdet=4)
+            arg = miller.vector3to4(np.array(U, dtype=float))
+            arg[rng.randrange(3), rng.randrange(3)] += rng.choice([-1, 1]) * rng.choice([1e-6, 0.01, 1.0])
+            form = 'hex4-sum-not-zero'
+        extra = [near_face_spos(rng, U)] if rng.random() < 0.3 else []
+        sysm, fam, spos = gen_system(rng, am, (box, 'hexagonal'), extra=extra)
+        return sysm, fam, spos, U, d, arg, form
+
+
+def _tol_rel(np, V, *arrays):
+    """bound on the rounding error of a relative coordinate obtained from float Cartesian data of the given magnitudes
+    through inv(V): 2^-52 x 4096 x (largest magnitude) x |inv V| (max column sum). 4096 covers the ~20 operations of
+    supersize + translation + normalize (lstsq transform) + the oracle's own inverse; observed worst 4e-13 where
+    this gives 3e-10."""
+    scale = max(float(np.abs(np.asarray(a, dtype=float)).max()) for a in arrays + (V,))
+    return 2.0 ** -52 * 4096 * scale * float(np.abs(np.linalg.inv(V)).sum(axis=0).max())
+
+
+def _corr_rotate(ctx, am, sysm, fam, U, d, kind, arg, form):
+    np = _np()
     bl, al = sys_line(sysm)
-    line = f"rotate {NEXTRA} {sysm.natoms} {bl} " + ' '.join(str(x) for r in U for x in r) + ' ' + al
+    flat = np.asarray(arg, dtype=float).ravel()
+    line = f"rotatef {NEXTRA} {sysm.natoms} {bl} {len(flat)} {cm.frs(flat)} {al}"
     out = ctx.driver.ask(line)
     ctx.stats.case(kind, line, nontrivial=U != [[1, 0, 0], [0, 1, 0], [0, 0, 1]],
-                   sample={'op': kind, 'family': fam, 'U': U, 'det': d, 'natoms': sysm.natoms})
+                   sample={'op': kind, 'family': fam, 'U': U, 'det': d, 'natoms': sysm.natoms, 'uvws_form': form})
+    ctx.extra.setdefault('uvws_forms', {})
+    ctx.extra['uvws_forms'][form] = ctx.extra['uvws_forms'].get(form, 0) + 1
+    rp = {'op': 'rotate', 'line': line, 'U': U, 'uvws': np.asarray(arg, dtype=float).tolist(), 'form': form}
+
     def on_face(rel):
         return any(min(abs(float(x)), abs(float(x) - 1.0)) < 1e-6 for x in rel)
 
     try:
-        new, T = sysm.rotate(U, return_transform=True)
+        new, T = sysm.rotate(arg, return_transform=True)
     except ValueError as e:
         if not out.startswith('err:'):
             mbox, matoms = parse_result(out)
@@ -357,15 +501,19 @@ def _corr_rotate(ctx, am, sysm, fam, U, d, kind):
                 if any(on_face(vecmat(p, Vi)) for _, p, _ in matoms):
                     ctx.extra['rotate_outside_face_exempt'] = ctx.extra.get('rotate_outside_face_exempt', 0) + 1
                     return
-            ctx.disagree(kind + ':impl-refuses', f'rotate refused U={U} (det {d}) family {fam}: {e}; the model keeps '
-                         f'{len(matoms)} atoms', {'op': 'rotate', 'line': line, 'U': U})
+            ctx.disagree(kind + ':impl-refuses', f'rotate refused uvws={np.asarray(arg).tolist()} ({form}; integers {U}, '
+                         f'det {d}) family {fam}: {e}; the model keeps {len(matoms)} atoms', rp)
+        return
+    except Exception as e:  # noqa  - any other exception is an observation, not a harness crash
+        ctx.disagree(kind + ':impl-raises', f'rotate raised {type(e).__name__}: {e} for uvws='
+                     f'{np.asarray(arg).tolist()} ({form}); model: {out[:40]}', rp)
         return
     if out.startswith('err:'):
         if kind == 'rotate-outside' and any(on_face(srow) for srow in new.atoms_prop('pos', scale=True)):
             ctx.extra['rotate_outside_face_exempt'] = ctx.extra.get('rotate_outside_face_exempt', 0) + 1
             return
-        ctx.disagree(kind + ':model-refuses', f'model refused U={U}: {out}; rotate returned {new.natoms} atoms',
-                     {'line': line})
+        ctx.disagree(kind + ':model-refuses', f'model refused uvws={np.asarray(arg).tolist()} ({form}): {out}; rotate '
+                     f'returned {new.natoms} atoms', rp)
         return
     mbox, matoms = parse_result(out)
     # model: relative coordinates in the model's new box
@@ -382,11 +530,13 @@ def _corr_rotate(ctx, am, sysm, fam, U, d, kind):
     spos = new.atoms_prop('pos', scale=True)
     iset = [(int(new.atoms.atype[k]), tuple(Fraction(x) for x in payload(new, k)), tuple(spos[k]))
             for k in range(new.natoms)]
-    if not match_multisets(iset, mset, tol=1e-7):
-        ctx.disagree(kind, f'rotate U={U} (family {fam}): kept atoms differ from the model '
-                     f'({new.natoms} vs {len(matoms)})',
-                     {'op': 'rotate', 'line': line, 'U': U, 'impl_natoms': int(new.natoms),
-                      'model_natoms': len(matoms)})
+    # the kept atoms are the supercell atoms themselves (never moved): the implementation's relative coordinates
+    # agree with the exact ones up to rounding, also for atoms 1e-7 off a face
+    tol = _tol_rel(np, new.box.vects, new.atoms.pos, sysm.box.origin, sysm.box.vects)
+    if not match_multisets(iset, mset, tol=tol):
+        ctx.disagree(kind, f'rotate uvws={np.asarray(arg).tolist()} ({form}, family {fam}): kept atoms differ from the '
+                     f'model ({new.natoms} vs {len(matoms)}; positions compared to {tol:.1e} relative)',
+                     dict(rp, impl_natoms=int(new.natoms), model_natoms=len(matoms)))
 
 
 def inv3(V):
@@ -451,6 +601,9 @@ def _check_same_crystal(ctx, key, what, sysm, spos, new, T, count, replay):
     recs = _orig_records(sysm, spos)
     Vinv = np.linalg.inv(sysm.box.vects)
     hits = [0] * len(recs)
+    # "maps onto an original atom modulo the lattice" is evaluated at the rounding bound of the float data (about
+    # 1e-11 relative), not at a loose tolerance: an atom moved by 1e-7 of a cell is not the original atom
+    tol = _tol_rel(np, sysm.box.vects, new.atoms.pos, sysm.box.origin, new.box.vects) if new.natoms else 1e-9
     if new.natoms != count * sysm.natoms:
         ctx.violate(key + ':count', f'{what}: {new.natoms} atoms, expected {count} x {sysm.natoms}', replay)
         return False
@@ -472,13 +625,16 @@ def _check_same_crystal(ctx, key, what, sysm, spos, new, T, count, replay):
         for i, (t, opl, sp) in enumerate(recs):
             if t != int(new.atoms.atype[k]) or opl != pl:
                 continue
-            if all(circ(s[j], sp[j]) < 1e-6 for j in range(3)):
+            if all(circ(s[j], sp[j]) < tol for j in range(3)):
                 best = i
                 break
         if best is None:
+            near = min((max(circ(s[j], sp[j]) for j in range(3)) for t, opl, sp in recs
+                        if t == int(new.atoms.atype[k]) and opl == pl), default=None)
             ctx.violate(key + ':member', f'{what}: result atom {k} (type {int(new.atoms.atype[k])}) maps onto no '
-                        f'original atom with the same type/properties modulo the original lattice (rel {s.tolist()})',
-                        replay)
+                        f'original atom with the same type/properties modulo the original lattice (rel {s.tolist()}; '
+                        + (f'the nearest one is {near:.3g} of a cell away, rounding bound {tol:.1e})' if near is not None
+                           else 'no original atom has these property values)'), replay)
             return False
         hits[best] += 1
     if any(h != count for h in hits):
@@ -506,6 +662,39 @@ def _check_new_vectors(ctx, key, what, sysm, U, new, T, replay):
                     f'by the returned transform {want.tolist()}', replay)
         return False
     return True
+
+
+def _oracle_rotate(ctx, am, sysm, fam, spos, U, d, arg, form, accepted, key):
+    """all clauses for one rotate call; `U` are the integers `arg` stands for."""
+    np = _np()
+    I3 = np.eye(3)
+    uv = np.asarray(arg, dtype=float).tolist()
+    replay = {'op': 'rotate', 'family': fam, 'vects': sysm.box.vects.tolist(), 'origin': sysm.box.origin.tolist(),
+              'spos': [[float(x) for x in sp] for sp in spos], 'atype': sysm.atoms.atype.tolist(), 'U': U, 'uvws': uv,
+              'form': form, 'accepted': accepted}
+    what = f'rotate uvws={uv} ({form}; integers {U}, det {d}; {fam})'
+    try:
+        new, T = sysm.rotate(arg, return_transform=True)
+    except Exception as e:  # noqa
+        if not accepted and isinstance(e, ValueError):
+            return
+        ctx.violate(key + ':raises', f'rotate raised {type(e).__name__}: {e} for {what}, origin '
+                    f'{sysm.box.origin.tolist()}, relative positions {replay["spos"]}', replay)
+        return
+    if not accepted:
+        ctx.violate(key + ':refusal', f'{what}: indices that are not integers (3 tolerances or more off) were accepted',
+                    replay)
+        return
+    if not _check_same_crystal(ctx, key, what, sysm, spos, new, T, abs(d), replay):
+        return
+    _check_new_vectors(ctx, key + ':vectors', what, sysm, U, new, T, replay)
+    if not new.box.is_lammps_norm():
+        ctx.violate(key + ':lammps-normal', f'{what}: result box is not LAMMPS-compatible', replay)
+    sp = new.atoms_prop('pos', scale=True)
+    if sp.min() < -1e-9 or sp.max() > 1 + 1e-9:
+        ctx.violate(key + ':inside', f'{what}: atoms outside the new cell (rel range {sp.min()}..{sp.max()})', replay)
+    if not (np.allclose(T @ T.T, I3, atol=1e-9) and abs(np.linalg.det(T) - 1) < 1e-9):
+        ctx.violate(key + ':transform', f'{what}: returned transform is not a proper rotation', replay)
 
 
 def search(ctx, broken):
@@ -545,123 +734,259 @@ def search(ctx, broken):
             ctx.violate('supersize:refusal', f'supersize{bad} was accepted', {'op': 'supersize-refusal', 'sizes': str(bad)})
         except (TypeError, ValueError):
             pass
-    # rotate
-    for it in range(ctx.n(50, 600) * scale):
+    # rotate: the vectors are handed over as ints, float arrays and floats within / outside the integer tolerance
+    for it in range(ctx.n(400, 2000) * scale):
         sysm, fam, spos, U, d = gen_case_U(rng, am, it, ctx.n(5, 8))
-        replay = {'op': 'rotate', 'family': fam, 'vects': sysm.box.vects.tolist(), 'origin': sysm.box.origin.tolist(),
-                  'spos': [[float(x) for x in s] for s in spos], 'atype': sysm.atoms.atype.tolist(), 'U': U}
-        ctx.stats.case('oracle:rotate', (fam, tuple(map(tuple, U)), tuple(spos)))
-        try:
-            new, T = sysm.rotate(U, return_transform=True)
-        except Exception as e:  # noqa
-            ctx.violate('rotate:raises', f'rotate raised {type(e).__name__}: {e} for U={U} det={d} ({fam}, origin '
-                        f'{sysm.box.origin.tolist()})', replay)
-            continue
-        if not _check_same_crystal(ctx, 'rotate', f'rotate U={U} det={d} ({fam})', sysm, spos, new, T, abs(d), replay):
-            continue
-        _check_new_vectors(ctx, 'rotate:vectors', f'rotate U={U} det={d} ({fam})', sysm, U, new, T, replay)
-        if not new.box.is_lammps_norm():
-            ctx.violate('rotate:lammps-normal', f'rotate U={U}: result box is not LAMMPS-compatible', replay)
-        sp = new.atoms_prop('pos', scale=True)
-        if sp.min() < -1e-9 or sp.max() > 1 + 1e-9:
-            ctx.violate('rotate:inside', f'rotate U={U}: atoms outside the new cell (rel range {sp.min()}..{sp.max()})', replay)
-        if not (np.allclose(T @ T.T, I3, atol=1e-9) and abs(np.linalg.det(T) - 1) < 1e-9):
-            ctx.violate('rotate:transform', f'rotate U={U}: returned transform is not a proper rotation', replay)
-    # hexagonal 3x4 input
-    for it in range(ctx.n(6, 40)):
-        box = am.Box(a=3.0, b=3.0, c=5.0, gamma=120)
-        sysm, fam, spos = gen_system(rng, am, (box, 'hexagonal'))
-        U, d = gen_U(rng, maxdet=4)
-        # a 3-index vector [u v w] has 4-index form [(2u-v)/3, (2v-u)/3, -(u+v)/3, w]; use 3x multiples to stay integer
-        U3 = [[3 * x for x in r] for r in U]
-        U4 = [[(2 * r[0] - r[1]) // 3 * 1, (2 * r[1] - r[0]) // 3, -(r[0] + r[1]) // 3, r[2]] for r in U3]
-        replay = {'op': 'rotate-hex', 'U4': U4, 'spos': [[float(x) for x in s] for s in spos]}
-        ctx.stats.case('oracle:rotate-hex', (tuple(map(tuple, U4)), tuple(spos)))
-        if abs(27 * d) > 60:
-            continue
-        try:
-            new, T = sysm.rotate(np.array(U4), return_transform=True)
-        except Exception as e:  # noqa
-            ctx.violate('rotate:hex-raises', f'rotate raised {type(e).__name__}: {e} for 3x4 indices {U4}', replay)
-            continue
-        if _check_same_crystal(ctx, 'rotate-hex', f'rotate 3x4 {U4}', sysm, spos, new, T, abs(27 * d), replay):
-            _check_new_vectors(ctx, 'rotate-hex:vectors', f'rotate 3x4 {U4} (= 3x3 {U3})', sysm, U3, new, T, replay)
+        arg, form, accepted = gen_uvws_form(rng, U) if it >= len(FIXED_U) else (U, 'int-list', True)
+        ctx.stats.case('oracle:rotate', (fam, repr(np.asarray(arg).tolist()), tuple(spos)))
+        _oracle_rotate(ctx, am, sysm, fam, spos, U, d, arg, form, accepted, 'rotate')
+    # hexagonal cells with 4-index vectors
+    for it in range(ctx.n(60, 300) * scale):
+        sysm, fam, spos, U, d, arg, form = gen_hex_case(rng, am)
+        ctx.stats.case('oracle:rotate-hex', (repr(np.asarray(arg).tolist()), tuple(spos)))
+        _oracle_rotate(ctx, am, sysm, fam, spos, U, d, arg, form, form != 'hex4-sum-not-zero', 'rotate-hex')
     # refusals of rotate
     sysm, fam, spos = gen_system(rng, am)
     for bad, why in [([[1, 0, 0], [2, 0, 0], [0, 0, 1]], 'parallel'), ([[1, 1, 0], [1, -1, 0], [2, 0, 0]], 'planar'),
-                     ([[1.5, 0, 0], [0, 1, 0], [0, 0, 1]], 'non-integer')]:
+                     ([[1.5, 0, 0], [0, 1, 0], [0, 0, 1]], 'non-integer'),
+                     ([[1, 0, -1, 0], [0, 1, -1, 0], [0, 0, 0, 1]], '4-index vectors on a cell that is not hexagonal'),
+                     ([[1, 0, 0], [0, 1, 0]], 'two vectors')]:
         ctx.stats.case('oracle:rotate-refusal', why)
+        if why.startswith('4-index') and sysm.box.ishexagonal():
+            continue
         try:
             sysm.rotate(bad)
             ctx.violate('rotate:refusal', f'rotate accepted {why} vectors {bad}', {'op': 'rotate-refusal', 'U': bad})
         except ValueError:
             pass
+        except Exception as e:  # noqa
+            ctx.violate('rotate:refusal', f'rotate raised {type(e).__name__} ({e}) instead of ValueError for {why} '
+                        f'vectors {bad}', {'op': 'rotate-refusal', 'U': bad})
     _search_conversions(ctx, rng, am)
 
 
-CONV = {
-    # setting: (family box kwargs, basis relpos)
-    'p': (dict(a=3.0, b=3.0, c=3.0), [[0, 0, 0]]),
-    'i': (dict(a=3.0, b=3.0, c=3.0), [[0, 0, 0], [.5, .5, .5]]),
-    'f': (dict(a=4.0, b=4.0, c=4.0), [[0, 0, 0], [.5, .5, 0], [.5, 0, .5], [0, .5, .5]]),
-    'a': (dict(a=3.0, b=4.0, c=5.0), [[0, 0, 0], [0, .5, .5]]),
-    'b': (dict(a=3.0, b=4.0, c=5.0), [[0, 0, 0], [.5, 0, .5]]),
-    'c': (dict(a=3.0, b=4.0, c=5.0), [[0, 0, 0], [.5, .5, 0]]),
-    't1': (dict(a=3.0, b=3.0, c=7.0, gamma=120), [[0, 0, 0], [2 / 3, 1 / 3, 1 / 3], [1 / 3, 2 / 3, 2 / 3]]),
-    't2': (dict(a=3.0, b=3.0, c=7.0, gamma=120), [[0, 0, 0], [1 / 3, 2 / 3, 1 / 3], [2 / 3, 1 / 3, 2 / 3]]),
+# lattice sites of the conventional cell per setting: numerators over the denominator
+CONV_SITES = {
+    'p': (1, [(0, 0, 0)]),
+    'i': (2, [(0, 0, 0), (1, 1, 1)]),
+    'f': (2, [(0, 0, 0), (1, 1, 0), (1, 0, 1), (0, 1, 1)]),
+    'a': (2, [(0, 0, 0), (0, 1, 1)]),
+    'b': (2, [(0, 0, 0), (1, 0, 1)]),
+    'c': (2, [(0, 0, 0), (1, 1, 0)]),
+    't1': (3, [(0, 0, 0), (2, 1, 1), (1, 2, 2)]),
+    't2': (3, [(0, 0, 0), (1, 2, 1), (2, 1, 2)]),
 }
-NLAT = {'p': 1, 'i': 2, 'f': 4, 'a': 2, 'b': 2, 'c': 2, 't1': 3, 't2': 3}
+NLAT = {k: len(v[1]) for k, v in CONV_SITES.items()}
+# crystal families for which the code accepts the setting (check_setting_basis)
+CONV_FAMILIES = {'p': ['cubic', 'hexagonal', 'tetragonal', 'rhombohedral', 'orthorhombic', 'monoclinic', 'triclinic'],
+                 'i': ['orthorhombic', 'tetragonal', 'cubic'], 'f': ['orthorhombic', 'cubic'],
+                 'a': ['monoclinic', 'orthorhombic'], 'b': ['monoclinic', 'orthorhombic'],
+                 'c': ['monoclinic', 'orthorhombic'], 't1': ['hexagonal'], 't2': ['hexagonal']}
+
+
+def gen_conv_box(rng, am, setting, plain=False):
+    fam = rng.choice(CONV_FAMILIES[setting])
+    a, b, c = rng.choice([3.0, 3.25, 4.0]), rng.choice([4.5, 5.0]), rng.choice([5.75, 6.5, 7.0])
+    org = [cm.dyadic(rng, -3, 3, 2) for _ in range(3)] if (rng.random() < 0.5 and not plain) else [0.0, 0.0, 0.0]
+    if fam == 'cubic':
+        box = am.Box(a=a, b=a, c=a, origin=org)
+    elif fam == 'tetragonal':
+        box = am.Box(a=a, b=a, c=c, origin=org)
+    elif fam == 'orthorhombic':
+        box = am.Box(a=a, b=b, c=c, origin=org)
+    elif fam == 'hexagonal':
+        box = am.Box(a=a, b=a, c=c, gamma=120, origin=org)
+    elif fam == 'monoclinic':
+        box = am.Box(a=a, b=b, c=c, beta=rng.choice([95.0, 104.5, 110.0]), origin=org)
+    elif fam == 'rhombohedral':
+        al = rng.choice([60.0, 75.0, 100.0])
+        box = am.Box(a=a, b=a, c=a, alpha=al, beta=al, gamma=al, origin=org)
+    else:
+        box = am.Box(a=a, b=b, c=c, alpha=rng.choice([81.0, 97.0]), beta=rng.choice([75.0, 104.0]),
+                     gamma=rng.choice([66.0, 101.0]), origin=org)
+    return box, fam
+
+
+def gen_conv_case(rng, am, setting, mode='random'):
+    """a conventional cell of the setting: 1-3 motif atoms per lattice point (the first one, type 1, on the lattice
+    points; types, charges and tags are functions of the motif atom - the crystal has the primitive periodicity).
+    Storage: `plain` = every coordinate in [0, 1); otherwise a coordinate 0 is stored as 1.0 (the far face / edge /
+    corner of the cell) with probability 1/2 (`far`: always) and a quarter of the atoms are stored outside the cell,
+    one cell vector away along each axis."""
+    den, sites = CONV_SITES[setting]
+    while True:
+        nm = rng.randint(1, 3)
+        motif = [(Fraction(0), Fraction(0), Fraction(0))]
+        while len(motif) < nm:
+            motif.append(tuple(Fraction(rng.randint(0, 15), 16) for _ in range(3)))
+        exact, midx = [], []
+        for st in sites:
+            for j, off in enumerate(motif):
+                exact.append(tuple(frac_mod1(Fraction(st[k], den) + off[k]) for k in range(3)))
+                midx.append(j)
+        if all(max(circ(x[k], y[k]) for k in range(3)) > 1e-3 for x, y in itertools.combinations(exact, 2)):
+            break
+    mtype = [1] + [rng.randint(1, 3) for _ in range(nm - 1)]
+    remap = {t: i + 1 for i, t in enumerate(sorted(set(mtype)))}
+    mtype = [remap[t] for t in mtype]
+    mq = [cm.dyadic(rng, -2, 2, 2) for _ in range(nm)]
+    mtag = rng.sample(range(1, 50), nm)
+    stored = []
+    for sx in exact:
+        t = list(sx)
+        if mode != 'plain':
+            if mode != 'far' and rng.random() < 0.25:
+                # one cell vector outside (the periodic lookup of the code, System.dmag, is a minimum-image search
+                # over the neighbouring cells: atoms further out are outside its - and C01's - domain)
+                t = [t[k] + rng.randint(-1, 1) for k in range(3)]
+            else:
+                for k in range(3):
+                    if t[k] == 0 and (mode == 'far' or rng.random() < 0.5):
+                        t[k] = Fraction(1)
+        stored.append(tuple(t))
+    box, fam = gen_conv_box(rng, am, setting, plain=(mode == 'plain'))
+    return {'setting': setting, 'family': fam, 'mode': mode, 'vects': box.vects.tolist(), 'origin': box.origin.tolist(),
+            'stored': [[float(x) for x in t] for t in stored], 'atype': [mtype[j] for j in midx],
+            'q': [mq[j] for j in midx], 'tag': [mtag[j] for j in midx]}
+
+
+def build_conv(am, case):
+    np = _np()
+    atoms = am.Atoms(atype=case['atype'], pos=np.array(case['stored'], dtype=float), q=np.array(case['q'], dtype=float),
+                     tag=np.array(case['tag'], dtype=int))
+    return am.System(atoms=atoms, box=am.Box(vects=case['vects'], origin=case['origin']), scale=True)
+
+
+def conv_exact_spos(case):
+    """the exact relative coordinates (sixteenths + halves / thirds) the stored floats stand for."""
+    return [tuple(Fraction(x).limit_denominator(48) for x in t) for t in case['stored']]
 
 
 def _search_conversions(ctx, rng, am):
     """conventional -> primitive -> conventional: re-expressions that undo one another."""
+    for setting in CONV_SITES:
+        for variant in range(ctx.n(16, 80)):
+            case = gen_conv_case(rng, am, setting, mode=('plain', 'far')[variant] if variant < 2 else 'random')
+            case['op'] = 'conversion'
+            # 't': the code decides between t1 and t2 itself; check_basis=False skips the lattice-site test
+            case['call_setting'] = 't' if setting[0] == 't' and rng.random() < 0.35 else setting
+            case['check_basis'] = not (variant >= 2 and rng.random() < 0.2 and case['call_setting'] != 't')
+            ctx.stats.case('oracle:conversion', (setting, repr(case['stored']), case['call_setting'], repr(case['vects'])),
+                           sample={'op': 'c2p->p2c', 'setting': setting, 'family': case['family'],
+                                   'natoms': len(case['atype']), 'storage': case['mode']})
+            _run_conversion(ctx, am, case)
+
+
+def _run_conversion(ctx, am, case):
     np = _np()
-    for setting, (bk, basis) in CONV.items():
-        for variant in range(ctx.n(1, 4)):
-            box = am.Box(**bk)
-            # motif: one or two atoms per lattice point (second of another type, generic offset)
-            motif = [(1, np.zeros(3))]
-            if variant % 2 == 1:
-                motif.append((2, np.array([0.25, 0.125, 0.0625]) if setting[0] != 't' else np.array([0.0, 0.0, 0.25])))
-            spos, atype = [], []
-            for bpt in basis:
-                for t, off in motif:
-                    spos.append((np.array(bpt) + off) % 1.0)
-                    atype.append(t)
-            n = len(spos)
-            atoms = am.Atoms(atype=atype, pos=np.array(spos), q=np.arange(n) % 1 * 0.0 + np.array(atype) * 0.5,
-                             v=np.zeros((n, 3)))
-            conv = am.System(atoms=atoms, box=box, scale=True)
-            replay = {'op': 'conversion', 'setting': setting, 'variant': variant}
-            ctx.stats.case('oracle:conversion', (setting, variant),
-                           sample={'op': 'c2p->p2c', 'setting': setting, 'natoms': n})
+    setting = case['setting']
+    conv = build_conv(am, case)
+    replay = case
+    what = (f"{case['family']} cell, setting {setting}" + (" (called with 't')" if case['call_setting'] != setting else '')
+            + ('' if case['check_basis'] else ', check_basis=False') + f", relative positions {case['stored']}")
+    before = conv.atoms.pos.copy()
+    try:
+        prim, T1 = conv.dump('conventional_to_primitive', setting=case['call_setting'], return_transform=True,
+                             check_basis=case['check_basis'])
+        conv2, T2 = prim.dump('primitive_to_conventional', setting=setting, return_transform=True)
+    except Exception as e:  # noqa
+        if isinstance(e, ValueError) and 'Filtering failed' in str(e) and any(x < 0 or x > 1 for t in case['stored'] for x in t):
+            # an atom stored outside the cell may fall outside rotate's bounding supercell: the refusal rotate and
+            # its model share (correspondence batch rotate-outside); anything else is a violation
+            ctx.extra['conversion_outside_refused'] = ctx.extra.get('conversion_outside_refused', 0) + 1
+            return
+        ctx.violate('conversion:raises', f'cell conversion raised {type(e).__name__}: {e} for a valid {what}', replay)
+        return
+    if not np.array_equal(before, conv.atoms.pos):
+        ctx.violate('conversion:input-mutated', f'conventional_to_primitive changed its input ({what})', replay)
+    if prim.natoms * NLAT[setting] != conv.natoms or abs(prim.box.volume * NLAT[setting] - conv.box.volume) > 1e-8 * conv.box.volume:
+        ctx.violate('conversion:primitive-count', f'primitive cell: {prim.natoms} atoms, volume {prim.box.volume}; '
+                    f'conventional {conv.natoms}, {conv.box.volume} ({what})', replay)
+        return
+    # prim and conv2 describe conv's crystal through the transforms
+    sp_exact = [tuple(frac_mod1(x) for x in t) for t in conv_exact_spos(case)]
+    if not _check_same_crystal_partial(ctx, 'conversion:c2p', f'conventional_to_primitive: {what}', conv, sp_exact, prim, T1, replay):
+        return
+    if not (prim.box.is_lammps_norm() and conv2.box.is_lammps_norm()):
+        ctx.violate('conversion:lammps-normal', f'converted cell is not LAMMPS-compatible ({what})', replay)
+    for nm, cell in (('primitive', prim), ('conventional', conv2)):
+        sp = cell.atoms_prop('pos', scale=True)
+        if sp.min() < -1e-9 or sp.max() > 1 + 1e-9:
+            ctx.violate('conversion:inside', f'{nm} cell has atoms outside (rel range {sp.min()}..{sp.max()}; {what})', replay)
+    Ttot = T2 @ T1
+    if not _check_same_crystal(ctx, 'conversion:roundtrip', f'c2p then p2c: {what}', conv, sp_exact, conv2, Ttot, 1, replay):
+        return
+    # "undo one another": the composite is the identity re-expression - same cell vectors, composite
+    # transform = identity, and the atoms are the original ones modulo the lattice *without* any rotation
+    if not np.allclose(conv2.box.vects, conv.box.vects, rtol=0, atol=1e-8 * conv.box.a):
+        ctx.violate('conversion:cell', f'c2p then p2c changed the cell {conv.box.vects.tolist()} '
+                    f'-> {conv2.box.vects.tolist()} ({what})', replay)
+    elif not np.allclose(Ttot, np.eye(3), atol=1e-8):
+        ctx.violate('conversion:transform', f'c2p then p2c: composite transform {Ttot.tolist()} '
+                    f'is not the identity ({what})', replay)
+    else:
+        _check_same_crystal(ctx, 'conversion:undo', f'c2p then p2c compared in place: {what}', conv,
+                            sp_exact, conv2, np.eye(3), 1, replay)
+
+
+def _corr_basis(ctx, rng, am):
+    """check_setting_basis(check_family=False) against the Lean model `checkBasis`: valid cells in every storage
+    form (far faces, outside the cell) and spoiled ones (site atom missing / moved / of another type / doubled by a
+    lattice-equivalent copy). The model gets the exact Cartesian positions s.V + origin of the intended relative
+    coordinates, the implementation their float rounding; spoiled atoms are >= 1/16 of a cell off."""
+    np = _np()
+    from atomman.dump.conventional_to_primitive.dump import check_setting_basis
+    for setting in CONV_SITES:
+        for it in range(ctx.n(8, 60)):
+            case = gen_conv_case(rng, am, setting, mode=('plain', 'far')[it] if it < 2 else 'random')
+            spoil = 'none' if it < 3 else rng.choice(['none', 'missing', 'moved', 'type', 'doubled', 'other-setting'])
+            den, sites = CONV_SITES[setting]
+            ask_setting = setting
+            site_atoms = [k for k in range(len(case['atype'])) if k % (len(case['atype']) // len(sites)) == 0]
+            k = rng.choice(site_atoms)
+            if spoil == 'missing':
+                for key in ('stored', 'atype', 'q', 'tag'):
+                    case[key] = case[key][:k] + case[key][k + 1:]
+            elif spoil == 'moved':
+                c = rng.randrange(3)
+                case['stored'][k][c] += rng.choice([-1, 1]) / 32
+            elif spoil == 'type':
+                case['atype'][k] = max(case['atype']) + 1
+            elif spoil == 'doubled':
+                # a lattice-equivalent copy in a neighbouring cell (stays within one cell of the box: dmag's reach)
+                while True:
+                    sh = [rng.randint(-1, 1) for _ in range(3)]
+                    cp = [case['stored'][k][c] + sh[c] for c in range(3)]
+                    if any(sh) and all(-1 <= x < 2 for x in cp):
+                        break
+                case['stored'].append(cp)
+                for key in ('atype', 'q', 'tag'):
+                    case[key].append(case[key][k])
+            elif spoil == 'other-setting':
+                ask_setting = rng.choice([x for x in CONV_SITES if x != setting])
+            if not case['atype']:
+                continue
+            conv = build_conv(am, case)
+            V = [[Fraction(x) for x in row] for row in conv.box.vects.tolist()]
+            o = [Fraction(x) for x in conv.box.origin.tolist()]
+            atoms = []
+            for t, sp in zip(case['atype'], [tuple(Fraction(x).limit_denominator(96) for x in t) for t in case['stored']]):
+                pos = [sum(sp[i] * V[i][j] for i in range(3)) + o[j] for j in range(3)]
+                atoms.append(f"{t} {cm.frs(pos)}")
+            line = f"basis {ask_setting} {len(atoms)} {cm.frs(conv.box.vects)} {cm.frs(conv.box.origin)} " + ' '.join(atoms)
+            out = ctx.driver.ask(line)
+            ctx.stats.case('basis', line, sample={'op': 'check_setting_basis', 'setting': ask_setting, 'cell': setting,
+                                                  'spoiled': spoil, 'storage': case['mode']})
             try:
-                prim, T1 = conv.dump('conventional_to_primitive', setting=setting, return_transform=True)
-                conv2, T2 = prim.dump('primitive_to_conventional', setting=setting, return_transform=True)
+                impl = '1' if check_setting_basis(conv, setting=ask_setting, check_family=False) else '0'
+            except ValueError:
+                impl = 'err:value'
             except Exception as e:  # noqa
-                ctx.violate('conversion:raises', f'cell conversion ({setting}) raised {type(e).__name__}: {e}', replay)
-                continue
-            if prim.natoms * NLAT[setting] != conv.natoms or abs(prim.box.volume * NLAT[setting] - conv.box.volume) > 1e-8:
-                ctx.violate('conversion:primitive-count', f'primitive cell of setting {setting}: {prim.natoms} atoms, volume '
-                            f'{prim.box.volume}; conventional {conv.natoms}, {conv.box.volume}', replay)
-                continue
-            # prim and conv2 describe conv's crystal through the transforms
-            sp_exact = [tuple(Fraction(float(x)).limit_denominator(48) for x in s) for s in spos]
-            ok1 = _check_same_crystal_partial(ctx, 'conversion:c2p', f'conventional_to_primitive({setting})', conv, sp_exact, prim, T1, replay)
-            if ok1:
-                Ttot = T2 @ T1
-                _check_same_crystal(ctx, 'conversion:roundtrip', f'c2p then p2c ({setting})', conv, sp_exact, conv2, Ttot, 1, replay)
-                # "undo one another": the composite is the identity re-expression - same cell vectors, composite
-                # transform = identity, and the atoms are the original ones modulo the lattice *without* any rotation
-                if not np.allclose(conv2.box.vects, conv.box.vects, rtol=0, atol=1e-8 * conv.box.a):
-                    ctx.violate('conversion:cell', f'c2p then p2c ({setting}) changed the cell {conv.box.vects.tolist()} '
-                                f'-> {conv2.box.vects.tolist()}', replay)
-                elif not np.allclose(Ttot, np.eye(3), atol=1e-8):
-                    ctx.violate('conversion:transform', f'c2p then p2c ({setting}): composite transform {Ttot.tolist()} '
-                                f'is not the identity', replay)
-                else:
-                    _check_same_crystal(ctx, 'conversion:undo', f'c2p then p2c ({setting}) compared in place', conv,
-                                        sp_exact, conv2, np.eye(3), 1, replay)
+                impl = f'raised {type(e).__name__}: {e}'
+            if impl != out:
+                ctx.disagree('basis', f'check_setting_basis({ask_setting}) on a {setting} cell (spoiled: {spoil}, stored '
+                             f"relative positions {case['stored']}): implementation {impl}, model {out}",
+                             {'op': 'basis', 'line': line, 'case': case, 'asked': ask_setting})
 
 
 def _check_same_crystal_partial(ctx, key, what, sysm, spos, new, T, replay):
@@ -669,15 +994,17 @@ def _check_same_crystal_partial(ctx, key, what, sysm, spos, new, T, replay):
     np = _np()
     recs = _orig_records(sysm, spos)
     Vinv = np.linalg.inv(sysm.box.vects)
+    tol = _tol_rel(np, sysm.box.vects, new.atoms.pos, sysm.box.origin, new.box.vects) if new.natoms else 1e-9
     for k in range(new.natoms):
         y = T.T @ new.atoms.pos[k]
         s = (y - sysm.box.origin) @ Vinv
-        # (the primitive cell is only re-centred on an atom that already sits at the origin within 1e-8: no offset)
+        # (the primitive cell is only re-centred on an atom that already sits at the origin within rounding: no offset)
         s2 = [s[j] for j in range(3)]
         pl = _all_payload(new, k)
-        if not any(t == int(new.atoms.atype[k]) and opl == pl and all(circ(s2[j], sp[j]) < 1e-6 for j in range(3))
+        if not any(t == int(new.atoms.atype[k]) and opl == pl and all(circ(s2[j], sp[j]) < tol for j in range(3))
                    for (t, opl, sp) in recs):
-            ctx.violate(key, f'{what}: atom {k} is not an original atom modulo the lattice (rel {s2})', replay)
+            ctx.violate(key, f'{what}: atom {k} is not an original atom modulo the lattice (rel {s2}, compared to '
+                        f'{tol:.1e})', replay)
             return False
     sp = new.atoms_prop('pos', scale=True)
     for a in range(new.natoms):
@@ -695,7 +1022,8 @@ def replay(ctx, payload):
     if r.get('op') in ('supersize', 'rotate') and 'vects' in r:
         box = am.Box(vects=r['vects'], origin=r['origin'])
         n = len(r['spos'])
-        atoms = am.Atoms(atype=r['atype'], pos=np.array(r['spos']), q=np.zeros(n), v=np.zeros((n, 3)))
+        atoms = am.Atoms(atype=r['atype'], pos=np.array(r['spos']), q=np.zeros(n), v=np.zeros((n, 3)),
+                         tag=np.arange(n) + 1)
         sysm = am.System(atoms=atoms, box=box, scale=True)
         spos = [tuple(Fraction(x) for x in s) for s in r['spos']]
         if r['op'] == 'supersize':
@@ -704,11 +1032,10 @@ def replay(ctx, payload):
             M = math.prod(h - l for l, h in sizes)
             _check_same_crystal(ctx, 'supersize', 'replay', sysm, spos, new, np.eye(3), M, r)
         else:
-            d = round(float(np.linalg.det(np.array(r['U'], dtype=float))))
-            try:
-                new, T = sysm.rotate(r['U'], return_transform=True)
-                _check_same_crystal(ctx, 'rotate', 'replay', sysm, spos, new, T, abs(d), r)
-            except Exception as e:  # noqa
-                ctx.violate('rotate:raises', f'replay: rotate raised {e}', r)
+            _oracle_rotate(ctx, am, sysm, r.get('family', '?'), spos, r['U'], _det3(r['U']),
+                           np.array(r['uvws']) if 'uvws' in r else r['U'], r.get('form', 'int-list'),
+                           r.get('accepted', True), 'rotate')
+    elif r.get('op') == 'conversion' and 'stored' in r:
+        _run_conversion(ctx, am, r)
     else:
         search(ctx, True)
